@@ -79,7 +79,7 @@ def run(ctx):
         want = ["grid", "gen_rate", "gen_bulk", "st4_rate", "st4_bulk", "st6_rate", "st6_bulk", "stress", "tail",
                 "tail_root", "st4_dir", "st6_dir", "rough", "stress_int"]
         c = G.case_of(b, want=want)
-        if windkind == "u10" and bi % ctx.n(4, 8) == 0:
+        if windkind == "u10" and bi % ctx.n(2, 4) == 0:
             c["want"].append("inversion")
             c["inv_guess"] = G.hexl([10.0] * len(pts))
             c["inv_diss"] = "st4"
@@ -306,14 +306,23 @@ def run(ctx):
                 u0, d0 = C.unfx(inv["u10"][0]), C.unfx(inv["direction"][0])
                 for k in range(1, N + 1):
                     uk, dk = C.unfx(inv["u10"][k]), C.unfx(inv["direction"][k])
+                    if d0 == d0 and dk == dk and u0 != 0:
+                        ctx.count(["inversion direction", bi, k])
+                        if not ang_close(dk, want_dir(k, d0), 1e-4):
+                            ctx.oracle_fail("estimated wind direction under %s is %r, expected %r (mod 360)"
+                                            % (rep(k)["transformation"], dk, want_dir(k, d0) % 360.0),
+                                            rep(k, {"output": "windspeed_and_direction_from_spectra direction",
+                                                    "transformed_value": dk, "original_value": d0}))
+                            break
                     if u0 != u0 or uk != uk or u0 == 0:
-                        ctx.tally("wind inversion NaN/0")
+                        ctx.tally("estimated wind speed NaN/0 (solver found no wind; not compared)")
                         continue
-                    ctx.count(["inversion", bi, k])
-                    if abs(uk - u0) > 0.03 or not ang_close(dk, want_dir(k, d0), 1e-4):
-                        ctx.oracle_fail("inverted wind under %s: (%r m/s, %r deg) vs original (%r, %r)"
-                                        % (rep(k)["transformation"], uk, dk, u0, d0),
-                                        rep(k, {"output": "windspeed_and_direction_from_spectra"}))
+                    ctx.count(["inversion speed", bi, k])
+                    if abs(uk - u0) > 0.03:
+                        ctx.oracle_fail("estimated wind speed under %s: %r m/s vs original %r m/s"
+                                        % (rep(k)["transformation"], uk, u0),
+                                        rep(k, {"output": "windspeed_and_direction_from_spectra u10",
+                                                "transformed_value": uk, "original_value": u0}))
                         break
         # -------- tail root residual (the only solver output the model takes from the implementation)
         if not G.is_err(r.get("tail_root")):
